@@ -58,6 +58,38 @@ pub fn run(ctx: &mut Ctx) {
             one(ctx, &cl, &p, true);
         });
     }
+    // (this regime runs before the expensive ones: a change that makes the component cache useless
+    // lets the wide regime and the witnesses run into the watchdog, and a wrong answer provoked
+    // here is then still reported)
+    // fault injection on hash quality (hook H5): the residual hash keeps only its low 0..8 bits,
+    // so different residual formulas share a component-cache key all the time; the compiled
+    // function must not depend on the hash function (F17: the cache used to trust the hash alone)
+    for case in ctx.cases("weak_hash", 500, true) {
+        ctx.run_case("weak_hash", case, |ctx, rng| {
+            struct Reset;
+            impl Drop for Reset {
+                fn drop(&mut self) {
+                    rsdd::verif::set_residual_hash_bits(None);
+                }
+            }
+            let _reset = Reset;
+            let bits = *rng.pick(&[0u32, 0, 1, 2, 3, 5, 8]);
+            rsdd::verif::set_residual_hash_bits(Some(bits));
+            rsdd::verif::take_component_hash_conflicts();
+            // half of the cases also degrade the node store's hash (hook H6)
+            let w = crate::caps::WeakHash::new(if rng.bool() { Some(crate::caps::weak_classes(rng, &ctx.profile.clone(), true)) } else { None }, None);
+            // mostly CNFs that need branching (wide clauses, few units), so that the cache is
+            // consulted with many different residual formulas
+            let cl = if rng.chance(1, 4) { gen_cnf(rng, 9) } else { gen_branchy(rng) };
+            let n = clauses_to_cnf(&cl).num_vars();
+            let p = rng.perm(n);
+            ctx.count("compilations_with_truncated_hash", 2);
+            one(ctx, &cl, &p, false);
+            one(ctx, &cl, &p, true);
+            ctx.count("component_cache_hash_conflicts", rsdd::verif::take_component_hash_conflicts());
+            ctx.count("unique_table_hash_clashes", w.clashes());
+        });
+    }
     // wide: the CNF's variables are spread over up to 200 labels (most indices unused)
     for case in ctx.cases("wide", 300, true) {
         ctx.run_case("wide", case, |ctx, rng| {
@@ -93,35 +125,6 @@ pub fn run(ctx: &mut Ctx) {
                         json!({"store": "semantic64", "witness": 5, "observed": got.hex(), "expected": exp.hex()}));
                 }
             }
-        });
-    }
-    // fault injection on hash quality (hook H5): the residual hash keeps only its low 0..8 bits,
-    // so different residual formulas share a component-cache key all the time; the compiled
-    // function must not depend on the hash function (F17: the cache used to trust the hash alone)
-    for case in ctx.cases("weak_hash", 500, true) {
-        ctx.run_case("weak_hash", case, |ctx, rng| {
-            struct Reset;
-            impl Drop for Reset {
-                fn drop(&mut self) {
-                    rsdd::verif::set_residual_hash_bits(None);
-                }
-            }
-            let _reset = Reset;
-            let bits = *rng.pick(&[0u32, 0, 1, 2, 3, 5, 8]);
-            rsdd::verif::set_residual_hash_bits(Some(bits));
-            rsdd::verif::take_component_hash_conflicts();
-            // half of the cases also degrade the node store's hash (hook H6)
-            let w = crate::caps::WeakHash::new(if rng.bool() { Some(crate::caps::weak_classes(rng, &ctx.profile.clone(), true)) } else { None }, None);
-            // mostly CNFs that need branching (wide clauses, few units), so that the cache is
-            // consulted with many different residual formulas
-            let cl = if rng.chance(1, 4) { gen_cnf(rng, 9) } else { gen_branchy(rng) };
-            let n = clauses_to_cnf(&cl).num_vars();
-            let p = rng.perm(n);
-            ctx.count("compilations_with_truncated_hash", 2);
-            one(ctx, &cl, &p, false);
-            one(ctx, &cl, &p, true);
-            ctx.count("component_cache_hash_conflicts", rsdd::verif::take_component_hash_conflicts());
-            ctx.count("unique_table_hash_clashes", w.clashes());
         });
     }
     // one builder, several CNFs over the same variables (relatives of each other: shared
